@@ -1,5 +1,5 @@
 """C04 (conflict verdict + LALR(1) isomorphism) and C05 (precedence grouping)."""
-import json, os, random
+import json, os, random, re, subprocess
 from vlib import *
 from pcase import *
 from pfamily import *
@@ -8,11 +8,31 @@ import props_parser as PP
 
 
 def dump_dirs(sc, dirs, lalr=True, timeout=900, trace=False):
+    """in-process front-end / construction dump of many directories. If the tool dies (a fatal error inside lox cannot be
+    recovered in-process), every directory is dumped in a process of its own and the ones that kill it are reported as
+    crashed (panic field) instead of failing the whole check."""
     tool = build_tool(sc, "dump")
+    flags = ([] if lalr else ["-nolalr"]) + (["-trace"] if trace else [])
     lf = os.path.join(sc, "dump-dirs-%d-%d.txt" % (len(dirs), int(trace)))
     open(lf, "w").write("\n".join(dirs) + "\n")
-    p = run([tool] + ([] if lalr else ["-nolalr"]) + (["-trace"] if trace else []) + ["@" + lf], timeout=timeout)
-    return [json.loads(l) for l in p.stdout.decode().splitlines() if l.strip()]
+    p = run([tool] + flags + ["@" + lf], timeout=timeout, check=False)
+    if p.returncode == 0:
+        return [json.loads(l) for l in p.stdout.decode().splitlines() if l.strip()]
+    log("dump tool died (%d); dumping %d directories one by one" % (p.returncode, len(dirs)))
+
+    def one(d):
+        try:
+            q = subprocess.run([tool] + flags + [d], stdout=subprocess.PIPE, stderr=subprocess.PIPE, timeout=120)
+        except subprocess.TimeoutExpired:
+            return {"dir": d, "ok": False, "stage": "crash", "panic": "front-end did not terminate within 120 s", "diag": "", "states": [], "modes": [],
+                    "terminals": [], "rules": [], "prods": [], "conflicts": False, "trace": []}
+        if q.returncode == 0 and q.stdout.strip():
+            return json.loads(q.stdout.decode().splitlines()[0])
+        err = q.stderr.decode(errors="replace")
+        m = re.search(r"(fatal error: [^\n]*|panic: [^\n]*)", err)
+        return {"dir": d, "ok": False, "stage": "crash", "panic": "process died: " + (m.group(1) if m else err[-200:]), "diag": "", "states": [],
+                "modes": [], "terminals": [], "rules": [], "prods": [], "conflicts": False, "trace": []}
+    return pmap(one, dirs)
 
 
 def lalr_case(case, d):
